@@ -188,6 +188,20 @@ def run(ctx):
   ctx.extra['exact_cases'] = len(cases)
   # ---- relational extension: bigger forests, generic float poses, brax vs MuJoCo (specification supplies the models)
   rel = relational_cases(ctx, 'c01-rel', 6, 30 if q else 600)
+  # wide forests: six-link models re-parented to several roots with 2 / 0 / 1 (and 1 / 0 / 2, 2 / 1 / 0) children, whose
+  # level-to-level parent maps have repeats AND gaps (depth-first body order is kept)
+  shaped = []
+  for c in rel:
+    if len(c['model']['links']) == 6 and all(l['root'] != 'free' for l in c['model']['links'][1:]):
+      for pattern in ([0, 1, 1, 0, 0, 5], [0, 1, 0, 0, 4, 4], [0, 1, 1, 0, 4, 0]):
+        m2 = json.loads(json.dumps(c['model']))
+        for l, p in zip(m2['links'], pattern):
+          l['parent'] = p
+        shaped.append({**c, 'model': m2})
+      if len(shaped) >= (6 if q else 90):
+        break
+  ctx.extra['wide_forest_cases'] = len(shaped)
+  rel = rel + shaped
   for case, r in par.run('harness.drivers.c01', 'eval_case', rel):
     ctx.case(key=(r['xml'], tuple(r['q'])), nontrivial=True)
     judge(ctx, case, r, spec=None)
